@@ -201,6 +201,11 @@ def k3_shapes(tier):
         dict(base, deviations=1, initial=[cbA, cbB, sA, sAB, s2], script=[('block', sA), ('reorg', 2, [cbC, sAB, s2])]),
         dict(base, deviations=1, initial=[cbA, cbB, sA, sAB, s2], script=[('force_reorg', 2), ('block', sA)]),
     ]
+    # the reorg is exactly as deep as the reorg limit, right after a multi-block catch-up (every block was indexed
+    # with the daemon already at the tip) and again after one more block
+    out += [dict(base, deviations=0, reorg_limit=2, initial=[cbA, cbB, sA, sAB, s2], script=[('reorg', 2, [cbC, sAB, s2])]),
+            dict(base, deviations=0, reorg_limit=3, initial=[cbA, cbB, sA, sAB, s2, cbC],
+                 script=[('block', sA), ('reorg', 3, [cbC, sAB, cbA]), ('reorg', 3, [sA, cbB, s2, cbA])])]
     if tier == 'thorough':
         out += [
             dict(base, deviations=1, initial=[cbA, cbB, cbC, sA, sAB, cbA, s2, sA, sAB, cbB, s2, sA, sAB],
@@ -222,7 +227,8 @@ KERNELS = [
                     'advance_blocks', 'backup_block', 'fetch_and_process_blocks'],
            bounds='a reorg of depth 6 on a 13-block chain (orphaned blocks beyond the 5-block file cache are fetched '
                   'again), reorgs of depth 2 natural / forced with 1 (quick) / 2 (thorough) schedule deviations, a forced '
-                  'reorg of 7; transactions are really serialised, ids are their real double SHA-256',
+                  'reorg of 7; two stories with reorgs exactly as deep as the reorg limit (2, 3) after a multi-block catch-up; '
+                  'transactions are really serialised, ids are their real double SHA-256',
            outside='chain content is concrete here (K1 carries the symbolic content); more deviations',
            assumptions=['daemon RPCs (including get_block, which writes the block file), sleeps and worker threads are '
                         'stubs (vlib/fullsim.py)', 'LevelDB modelled by MemStore, files by MemFS (symbolic mode)'],
